@@ -5,7 +5,8 @@ from vlib import synthcheck
 ID = "C03"
 SHARDS = 64
 RULE = (
-    "same program generator as C02, optimizer {default, fast}, uncompute=True; after simulating ALL 2^n basis inputs every argument "
+    "same program generator as C02 (incl. local names starting with _ret / anc_ / q), optimizer {default, fast}, uncompute=True, in 40% of the cases reached by a "
+    "second QlassF.compile(uncompute=True) on an object first compiled with uncompute False or True; after simulating ALL 2^n basis inputs every argument "
     "qubit must be unchanged and every qubit that is neither an argument nor mapped from a return bit must be zero. Non-trivial = the "
     "circuit has at least one scratch qubit touched by a gate and the function is not constant; distinct by canonical JSON of the case"
 )
